@@ -370,3 +370,12 @@ LEVEL_NOTE = ('Trusted: Lean kernel; axioms ⊆ {propext, Classical.choice, Quot
               'differentially; the effect of structural operations on the tree is an arbitrary new tree in the '
               'freshness theorem (their own semantics belong to C09-C11).')
 TECHNIQUE = 'Lean 4 proof (structural induction on schemas; invariant over histories) + differential model/code check'
+
+
+# structural updates issued by steps (views must be rebuilt when ANY update of a layer expires them),
+# and instances of one process class sharing their ports_schema dictionary
+from harness import structstep as _ss          # noqa: E402
+from harness import schemaleak as _sl          # noqa: E402
+from harness.mixins import add_family as _add_family   # noqa: E402
+_add_family(globals(), _ss, 'structstep', lambda case, impl: _ss.oracle(case, impl, who=('viewer', 'census')), share=0.06)
+_add_family(globals(), _sl, 'schemaleak', _sl.oracle, share=0.04)
